@@ -419,6 +419,49 @@ func logSafeChild(args []string) {
 			fmt.Printf("FAIL appended-member-misses-messages:%s | two composites built from one member slice: a member appended to one receives the other's messages (or none)\n", name)
 		}
 	}
+	if s.multi != nil {
+		// the same on fresh composites, many rounds: members appended at the same instant by several goroutines are all
+		// members afterwards (a read-modify-write of the member list that is not atomic loses one of them, and only when
+		// the two Appends really overlap — one barrier per child is not enough to see it)
+		mk := func() *logs.StringLoggers { l, _ := logs.NewPlainStringLogger(); return l }
+		rounds, appenders := 400, 4
+		lostRound, lost := -1, 0
+		for r := 0; r < rounds && lostRound < 0; r++ {
+			var c logs.IMultipleLoggers
+			if name == "multiple" {
+				c, _ = logs.NewMultipleLoggers("r", mk())
+			} else {
+				c, _ = logs.NewCombinedLoggers(mk())
+			}
+			added := make([]*logs.StringLoggers, appenders)
+			var gate, done sync.WaitGroup
+			gate.Add(appenders)
+			for a := 0; a < appenders; a++ {
+				added[a] = mk()
+				done.Add(1)
+				go func(a int) {
+					defer done.Done()
+					gate.Done()
+					gate.Wait()
+					_ = c.Append(added[a])
+				}(a)
+			}
+			done.Wait()
+			c.Log(logMsg(3, 5000+r, false))
+			for a := range added {
+				if strings.Count(added[a].GetLogContent(), logMsg(3, 5000+r, false)) != 1 {
+					lost++
+				}
+			}
+			if lost > 0 {
+				lostRound = r
+			}
+			_ = c.Close()
+		}
+		if lostRound >= 0 {
+			fmt.Printf("FAIL appended-member-misses-messages:%s | round %d: %d of %d members appended at the same instant to a fresh composite never receive the message logged after every Append had returned\n", name, lostRound, lost, appenders)
+		}
+	}
 	_ = s.loggers.Close()
 	fmt.Println("DONE")
 }
